@@ -45,6 +45,10 @@ DANGLING = {
     "dihedral": ("dihedrals", (1, 3, 5, 7), ("1", "60", "3", "2")),
     "pair-skip": ("pairs", (1, 5), ("1",)),
     "excl-next": ("exclusions", (2, 3), ()),
+    # the atom of the next residue is not the last one listed
+    "bond-rev": ("bonds", (3, 2), ("1", "0.41", "510")),
+    "angle-rev": ("angles", (5, 3, 1), ("2", "131", "41")),
+    "angle-next-first": ("angles", (3, 1, 2), ("2", "132", "42")),
 }
 
 
@@ -53,7 +57,7 @@ def _dangling_cases(tier):
     sets = [[n] for n in names] + [list(c) for c in _it.combinations(names, 2)]
     for ds in sets:
         yield dict(kind="dangling-linear", dangling=ds, tier=tier)
-    for ds in [[n] for n in ("bond", "sidebond", "angle", "dihedral")] + [["bond", "angle"], ["bond", "dihedral"]]:
+    for ds in [[n] for n in ("bond", "sidebond", "angle", "dihedral", "bond-rev", "angle-rev", "angle-next-first")] + [["bond", "angle"], ["bond", "dihedral"]]:
         for n in (2, 3, 4):
             yield dict(kind="dangling-graph", dangling=ds, n=n, tier=tier)
 
